@@ -6,13 +6,13 @@ CONSTANTS
   Stores = {"s1"}
   MaxLayers = 3
   MaxLen = 5
-  InitBases <- Bases3
-  ReadAll = FALSE
+  InitBases <- BasesFA
+  ReadAll = TRUE
   LogViews = FALSE
-  Quiet = TRUE
+  Quiet = FALSE
 INIT Init
 NEXT Next
 VIEW View
 INVARIANTS TypeOK OverlayEqualsFlat CheckpointIsSaved LastScanOK
 PROPERTIES FlushIsLocal PopDiscards
-
+ACTION_CONSTRAINT EmitEdge
